@@ -4,7 +4,7 @@ Reads the *real* source (parsed by pyvc.front), enumerates paths, uses loop inva
 sidecar contract, calls other functions by contract, and emits verification conditions.
 See DESIGN.md section 2.  Runs under python3-vt (z3 only; no numpy).
 """
-import ast, itertools
+import ast, itertools, os
 import z3
 from .logic import Arr, SymL, sort_of, INF, _z
 
@@ -515,6 +515,11 @@ class Engine:
                 if lems:
                     st = st.copy()
                     st.pc = st.pc + [concl for _, _, _, concl in lems]
+                    st.facts = dict(st.facts)
+                    for nm, _, _, concl in lems:
+                        st.facts['lemma:' + nm] = concl
+            if os.environ.get('VERIF_DEBUG_FACTS'):
+                print('FACTS at exit of %s: %s' % (self.cur, sorted(st.facts)))
             for clause_ in c.ensures(L, A, N, R, self.ghost, V):
                 name, g = clause_[0], clause_[1]
                 hy = None
@@ -999,12 +1004,17 @@ class Engine:
                     # object may be mutated in place AND the name rebound: havoc both
                     self.havoc_value(m, old, h, in_place=True)
                 h.env[m] = self.havoc_value(m, old, h, in_place=False)
+        h.facts = dict(h.facts)
         for name, g in all_inv(h):
             h.pc.append(_z(g))
+            h.facts['inv%d:%s' % (k, name)] = _z(g)       # the invariant at the loop head, for local proofs
         for h1, g in guard_fn(h):
             for h2, truth in self.split(h1, g, n):
                 if not truth:
                     self.reached.add((self.cur, 'loop%d.exit' % k))
+                    if len(h2.pc) > len(h1.pc):
+                        h2.facts = dict(h2.facts)
+                        h2.facts['exit%d' % k] = h2.pc[-1]          # the negated guard, for local proofs
                     yield ('fall', h2, None)
                     continue
                 self.reached.add((self.cur, 'loop%d.body' % k))
